@@ -54,7 +54,11 @@ const (
 	ctlNext finCtl = iota
 	ctlBreak
 	ctlDone
+	ctlContinue
 )
+
+// finLoopBound is the number of iterations the evaluator is prepared to unroll.
+const finLoopBound = 64
 
 // Exec runs the statements; it returns the outcome or an error when a
 // construct is outside the subset.
@@ -135,6 +139,23 @@ func (it *FinInterp) stmt(s ast.Stmt, env FinEnv) (*FinOutcome, finCtl, error) {
 					}
 				}
 			}
+			return nil, ctlNext, nil
+		}
+		if (x.Tok == token.ADD_ASSIGN || x.Tok == token.SUB_ASSIGN) && len(x.Lhs) == 1 {
+			o := ObjOf(it.Info, x.Lhs[0])
+			cur, isInt := env[o].(int64)
+			d, err := it.Eval(x.Rhs[0], env)
+			if err != nil {
+				return nil, ctlNext, err
+			}
+			dv, ok := d.(int64)
+			if o == nil || !isInt || !ok {
+				return nil, ctlNext, fmt.Errorf("%s on a value that is not an integer over the atoms", x.Tok)
+			}
+			if x.Tok == token.SUB_ASSIGN {
+				dv = -dv
+			}
+			env[o] = cur + dv
 			return nil, ctlNext, nil
 		}
 		if x.Tok != token.ASSIGN && x.Tok != token.DEFINE {
@@ -246,8 +267,105 @@ func (it *FinInterp) stmt(s ast.Stmt, env FinEnv) (*FinOutcome, finCtl, error) {
 		if x.Tok == token.BREAK && x.Label == nil {
 			return nil, ctlBreak, nil
 		}
+		if x.Tok == token.CONTINUE && x.Label == nil {
+			return nil, ctlContinue, nil
+		}
 		return nil, ctlNext, fmt.Errorf("branch statement %s outside the subset", x.Tok)
 	case *ast.IncDecStmt:
+		if o := ObjOf(it.Info, x.X); o != nil {
+			if cur, isInt := env[o].(int64); isInt {
+				if x.Tok == token.INC {
+					env[o] = cur + 1
+				} else {
+					env[o] = cur - 1
+				}
+			} else if _, tracked := env[o]; tracked {
+				env[o] = Sym{Name: ExprString(x.X) + " after " + x.Tok.String()}
+			}
+		}
+		return nil, ctlNext, nil
+	case *ast.RangeStmt:
+		// a loop over a list whose elements evaluate over the atoms (or over an integer) is unrolled
+		xs, err := it.Eval(x.X, env)
+		if err != nil {
+			return nil, ctlNext, err
+		}
+		var items []interface{}
+		switch v := xs.(type) {
+		case []interface{}:
+			items = v
+		case int64:
+			if v > finLoopBound {
+				return nil, ctlNext, fmt.Errorf("range over %d values outside the subset", v)
+			}
+			for i := int64(0); i < v; i++ {
+				items = append(items, nil)
+			}
+		default:
+			return nil, ctlNext, fmt.Errorf("range over %s, which is not a list over the atoms, outside the subset", ExprString(x.X))
+		}
+		for i, item := range items {
+			if x.Key != nil {
+				if o := ObjOf(it.Info, x.Key); o != nil {
+					env[o] = int64(i)
+				}
+			}
+			if x.Value != nil {
+				if o := ObjOf(it.Info, x.Value); o != nil {
+					env[o] = item
+				}
+			}
+			out, ctl, err := it.block(x.Body.List, env)
+			if err != nil {
+				return nil, ctlNext, err
+			}
+			if ctl == ctlDone {
+				return out, ctl, nil
+			}
+			if ctl == ctlBreak {
+				break
+			}
+		}
+		return nil, ctlNext, nil
+	case *ast.ForStmt:
+		if x.Init != nil {
+			if _, _, err := it.stmt(x.Init, env); err != nil {
+				return nil, ctlNext, err
+			}
+		}
+		for n := 0; ; n++ {
+			if n > finLoopBound {
+				return nil, ctlNext, fmt.Errorf("loop does not end within %d iterations over the atoms", finLoopBound)
+			}
+			if x.Cond != nil {
+				c, err := it.Eval(x.Cond, env)
+				if err != nil {
+					return nil, ctlNext, err
+				}
+				b, ok := c.(bool)
+				if !ok {
+					return nil, ctlNext, fmt.Errorf("loop condition %s does not evaluate to a boolean over the atoms", ExprString(x.Cond))
+				}
+				if !b {
+					break
+				}
+			}
+			out, ctl, err := it.block(x.Body.List, env)
+			if err != nil {
+				return nil, ctlNext, err
+			}
+			if ctl == ctlDone {
+				return out, ctl, nil
+			}
+			if ctl == ctlBreak {
+				break
+			}
+			if x.Post != nil {
+				if _, _, err := it.stmt(x.Post, env); err != nil {
+					return nil, ctlNext, err
+				}
+			}
+		}
 		return nil, ctlNext, nil
 	}
 	return nil, ctlNext, fmt.Errorf("statement %T outside the subset", s)
@@ -379,8 +497,70 @@ func (it *FinInterp) Eval(e ast.Expr, env FinEnv) (interface{}, error) {
 				return !eq, nil
 			}
 			return eq, nil
+		case token.LSS, token.LEQ, token.GTR, token.GEQ, token.ADD, token.SUB:
+			l, err := it.Eval(x.X, env)
+			if err != nil {
+				return nil, err
+			}
+			r, err := it.Eval(x.Y, env)
+			if err != nil {
+				return nil, err
+			}
+			li, lok := l.(int64)
+			ri, rok := r.(int64)
+			if lok && rok {
+				switch x.Op {
+				case token.LSS:
+					return li < ri, nil
+				case token.LEQ:
+					return li <= ri, nil
+				case token.GTR:
+					return li > ri, nil
+				case token.GEQ:
+					return li >= ri, nil
+				case token.ADD:
+					return li + ri, nil
+				case token.SUB:
+					return li - ri, nil
+				}
+			}
 		}
 		return Sym{Name: ExprString(e)}, nil
+	case *ast.CompositeLit:
+		// a list literal whose elements evaluate over the atoms
+		switch it.Info.Types[x].Type.Underlying().(type) {
+		case *types.Array, *types.Slice:
+			var items []interface{}
+			for _, el := range x.Elts {
+				if _, keyed := el.(*ast.KeyValueExpr); keyed {
+					return Sym{Name: ExprString(e)}, nil
+				}
+				v, err := it.Eval(el, env)
+				if err != nil {
+					return nil, err
+				}
+				items = append(items, v)
+			}
+			return items, nil
+		}
+	case *ast.IndexExpr:
+		if l, err := it.Eval(x.X, env); err == nil {
+			if items, ok := l.([]interface{}); ok {
+				if i, err := it.Eval(x.Index, env); err == nil {
+					if iv, ok := i.(int64); ok && iv >= 0 && int(iv) < len(items) {
+						return items[iv], nil
+					}
+				}
+			}
+		}
+	case *ast.CallExpr:
+		if b, ok := ObjOf(it.Info, x.Fun).(*types.Builtin); ok && b.Name() == "len" && len(x.Args) == 1 {
+			if l, err := it.Eval(x.Args[0], env); err == nil {
+				if items, ok := l.([]interface{}); ok {
+					return int64(len(items)), nil
+				}
+			}
+		}
 	}
 	return Sym{Name: ExprString(e)}, nil
 }
